@@ -453,21 +453,41 @@ void use_lcd_{j}() {{
         r.check((i + 2) not in badlines, f"_to_c_expr/binop[{name}]-not-c++", (pm.rel, pm.const("_BIN").lineno), f"Python `a {PY_OPS[name]} b` is translated to `{toks[name]}` which is not valid C++")
 
     # ---- C06-PROMOTE -------------------------------------------------------------------------
-    r = cx.rule("C06-PROMOTE", "every name first assigned inside a branch/handler is hoisted to the enclosing scope (so that uses after the statement are in scope): the promotion list is everything recorded, unfiltered", floor=3)
-    from . import c02
-    c02.rule_hoist_order(r, pm)
-    pb = pm.func("_promote_branch_decls")
-    rets = [n for n in walk_local(pb) if isinstance(n, ast.Return) and n.value is not None and not (isinstance(n.value, ast.List) and not n.value.elts)]
-    r.check(bool(rets) and all(norm(x.value) == "order" for x in rets), "_promote_branch_decls/returns-all-recorded", (pm, pb), f"returns {[norm(x.value) for x in rets]}; expected the complete `order` list")
-    loc = Locals(pb)
-    r.check(len(loc.defs.get("order", [])) == 1 and isinstance(loc.defs["order"][0], ast.List), "_promote_branch_decls/order-not-filtered", (pm, pb), "`order` is rebuilt/filtered after collection: names assigned in only some branches would stay block-local and be undeclared afterwards")
-    rec = pm.funcs.get("_promote_branch_decls.record")
-    if rec is None:
-        raise AnalysisError("_promote_branch_decls.record vanished")
-    apps = [c for c in walk_local(rec) if isinstance(c, ast.Call) and norm(c.func) == "order.append"]
-    from ..flow import lexical_conds
-    okr = len(apps) == 1 and {t for t, _v in lexical_conds(pm, apps[0])} <= {"name not in coverage"}
-    r.check(okr, "_promote_branch_decls/records-every-new-name", (pm, rec), "a newly seen name is not always appended to the promotion order")
+    # decided by evaluation: scripts in which a name is first assigned inside a branch / handler / loop body - in all of the
+    # branches or only in some - and used after the statement are parsed, and the IR is placed in the emitter's block
+    # structure (sa/irscope.py): every use must find its declaration in an enclosing C++ scope, nothing is declared twice
+    r = cx.rule("C06-PROMOTE", "every name first assigned inside a branch, handler or loop body (in every branch or only in some) is hoisted to the enclosing scope: for a corpus of scripts every read and assignment in the IR refers to a variable declared in an enclosing C++ block and no block declares a name twice, so the sketch compiles", floor=12, exhaustive=True)
+    from .. import irscope
+    pf_ = pm.func("parse")
+    scripts = {
+        "if-only": "x = 0\nwhile True:\n    if x > 1:\n        y = 5\n    z = y\n    x = x + 1\n",
+        "elif-only": "x = 0\nwhile True:\n    if x > 5:\n        x = 0\n    elif x > 1:\n        y = 5\n        w = 'a'\n    z = y\n    v = w\n    x = x + 1\n",
+        "else-only": "x = 0\nwhile True:\n    if x > 1:\n        x = 0\n    else:\n        y = 2.5\n    z = y\n",
+        "different-names-per-branch": "x = 0\nwhile True:\n    if x > 1:\n        a = 1\n    elif x > 0:\n        b = 2\n    else:\n        c = 3\n    s = a + b + c\n",
+        "handler-only": "x = 0\nwhile True:\n    try:\n        x = x + 1\n    except Exception:\n        err = 1\n    z = err\n",
+        "try-only": "x = 0\nwhile True:\n    try:\n        got = x + 1\n    except Exception:\n        x = 0\n    z = got\n",
+        "while-body": "x = 0\nwhile True:\n    while x < 3:\n        inner = x\n        x = x + 1\n    z = inner\n",
+        "for-body": "while True:\n    for i in range(3):\n        last = i\n        name = 'n'\n    z = last\n    t = name\n",
+        "nested-only-inner": "x = 0\nwhile True:\n    if x > 0:\n        if x > 5:\n            deep = 1\n        mid = deep\n    z = mid\n",
+        "setup-blocks": "x = 0\nif x > 1:\n    a = 1\nfor i in range(2):\n    b = i\ntry:\n    c = 1\nexcept Exception:\n    d = 2\nwhile True:\n    s = a + b + c + d\n",
+        "function-branches": "def f(v):\n    if v > 1:\n        r = 1\n    elif v > 0:\n        q = 2\n    return r + q\nwhile True:\n    z = f(3)\n",
+        "function-loop-and-handler": "def g(n):\n    for i in range(n):\n        acc = i\n    try:\n        ok = 1\n    except Exception:\n        bad = 2\n    return acc + ok + bad\nwhile True:\n    z = g(2)\n",
+        "tuple-in-branch": "x = 0\nwhile True:\n    if x > 1:\n        p, q = 1, 2\n    z = p + q\n",
+    }
+    for label, src in scripts.items():
+        try:
+            _it, out = pe.parse_source(src)
+        except dl.Unsupported as e:
+            raise AnalysisError(f"parse() left the evaluable subset on hoisting script `{label}`: {e}")
+        if out.kind != "return":
+            r.check(out.value == "ValueError", f"promote[{label}]/accepted-or-refused", (pm, pf_), f"script `{label}`: parse() raises {out.value}")
+            continue
+        viol = irscope.check(out.value, src)
+        r.check(not viol, f"promote[{label}]/every-use-in-scope", (pm, pf_), f"script `{label}`: {'; '.join(viol[:2])}", sample=f"{label}: in scope")
+    # ... and the hoisted declaration has the type of what the block assigns (`int msg = 0; msg = "tick";` does not compile):
+    # the typing corpus shared with C02-FLOW
+    from . import c02 as _c02
+    _c02.rule_flow_scripts(r, pm)
 
 
 PY_OPS = {"Add": "+", "Sub": "-", "Mult": "*", "Div": "/", "FloorDiv": "//", "Mod": "%", "Pow": "**", "BitAnd": "&", "BitOr": "|", "BitXor": "^", "LShift": "<<", "RShift": ">>"}
